@@ -253,8 +253,8 @@ def helper_update(rep, F):
     for c in fn.calls():
         if (c.path or "").endswith("Cell::<T>::set") and ".helper_chain" in O.operand(c.args[0]):
             sets.add(c.bb)
-    if len(sets) < 3:
-        rep.bad("R10.5", "floor", "only %d helper_chain.set sites" % len(sets), where=fn.loc())
+    if len(sets) < 1:
+        rep.bad("R10.5", "floor", "no helper_chain.set site", where=fn.loc())
         return
     # arm entries: switch on the discriminant of in_chains.0 taking the Some edge
     entries = []
